@@ -14,8 +14,8 @@ CONFIG = {
         "the compiler model of C02 (model/J5s{Ast,Walk,Convert,Link}.v); both versions of every generated package are compiled by the real compiler and by the model, and must agree",
     ],
     "mult_search": 3,
-    "refuted": ["C13_append_breaks_existing_refuted", "C13_full_statement_refuted"],
-    "partial": [],
+    "refuted": [],
+    "partial": ["C13_full_statement (embedding proved per source file before the link step; composition through the link step pending)"],
 }
 
 MANIFEST = {
